@@ -21,6 +21,7 @@ def main():
                              outside=meta.get("outside"), replay_path=a.replay, only=a.only,
                              exhaustive=meta.get("exhaustive", False))
     sys.stdout.flush()
+    runner.cleanup()
     os._exit(rc)
 
 
